@@ -307,7 +307,10 @@ def _spec_line(res):
             return None, {}
         if sub is None:
             opid[0] += 1
-            cmds.append(f"C:{opid[0]}:{times[id(cps)]}:{ar(cps.inputs)}:{ar(cps.outputs)}:-:0")
+            # what a CPU pass writes is taken from its operators, not only from the pass's own output list: the runtime writes
+            # every result of an operator, read or not (round 5, seeded change C12-r5m2: build_pass kept only read results)
+            op_outs = [t for ps in cps.passes for op in ps.ops for t in op.outputs if t is not None]
+            cmds.append(f"C:{opid[0]}:{times[id(cps)]}:{ar(cps.inputs)}:{ar(list(cps.outputs) + op_outs)}:-:0")
             stats["cpu_passes"] += 1
             continue
         ids = {}
